@@ -83,6 +83,11 @@ def corpus():
         out.append(("cnfgen", t, ""))
     out.append(("pbgen", ["subsetcard", "@BIP_DOT"], ""))
     out.append(("pbgen", ["php", "@BIP_DOT", "addedges", "1"], ""))
+    # the same without (or with only some of) the side attributes: accepted or refused, but the same in every process
+    for t in (["php", "@BIP_DOT_PLAIN"], ["subsetcard", "@BIP_DOT_PLAIN"], ["php", "@BIP_DOT_PARTIAL"],
+              ["php", "@BIP_GML_PLAIN"], ["php", "@BIP_DOT_PLAIN2"], ["dimacs", "@CNF9", "-T", "xorcomp", "@BIP_DOT_PLAIN"]):
+        out.append(("cnfgen", t, ""))
+    out.append(("pbgen", ["php", "@BIP_DOT_PLAIN"], ""))
     text = "p cnf 6 5\n1 -2 3 0\n-1 4 0\n5 6 0\n-3 -4 -5 0\n2 0\n"
     for flags in ([], ["-p"], ["-v"], ["-c"], ["-p", "-c"]):
         out.append(("cnfshuffle", flags, text))
@@ -95,6 +100,16 @@ FILES = {
     "@BIP_DOT": ("pairs.dot", 'graph pairs {\n' + "".join('  %s [bipartite=0];\n' % n for n in ("ann", "bo", "cy", "di", "ed"))
                  + "".join('  %s [bipartite=1];\n' % n for n in ("hole_x", "hole_y", "hole_z", "hole_w"))
                  + '  ann -- hole_x;\n  ann -- hole_y;\n  bo -- hole_y;\n  cy -- hole_z;\n  di -- hole_w;\n  ed -- hole_x;\n  ed -- hole_z;\n}\n'),
+    "@BIP_DOT_PLAIN": ("plainpairs.dot", 'graph pairs {\n  ann -- hole_x;\n  ann -- hole_y;\n  bo -- hole_y;\n  bo -- hole_z;\n  cy -- hole_z;\n'
+                                         '  cy -- hole_w;\n  di -- hole_w;\n  di -- hole_v;\n  ed -- hole_v;\n  ed -- hole_x;\n  fay -- hole_x;\n  gus -- hole_y;\n'
+                                         '  hal -- hole_z;\n  ida -- hole_w;\n}\n'),          # connected: one bipartition only
+    "@BIP_DOT_PLAIN2": ("plainpairs2.dot", 'graph pairs {\n  ann -- hole_x;\n  ann -- hole_y;\n  bo -- hole_y;\n  cy -- hole_z;\n  di -- hole_w;\n}\n'),
+    "@BIP_DOT_PARTIAL": ("partpairs.dot", 'graph pairs {\n  ann [bipartite=0];\n  hole_x [bipartite=1];\n  ann -- hole_x;\n  ann -- hole_y;\n  bo -- hole_y;\n'
+                                          '  cy -- hole_z;\n  di -- hole_w;\n}\n'),
+    "@BIP_GML_PLAIN": ("plainpairs.gml", 'graph [\n' + "".join('  node [\n    id %d\n    label "%s"\n  ]\n' % (i, n) for i, n in
+                                                               enumerate(("ann", "bo", "cy", "hole_x", "hole_y", "hole_z")))
+                       + "".join('  edge [\n    source %d\n    target %d\n  ]\n' % e for e in ((0, 3), (0, 4), (1, 4), (1, 5), (2, 5), (2, 3))) + ']\n'),
+    "@CNF9": ("nine.cnf", "p cnf 9 4\n1 -2 3 0\n-4 5 0\n6 -7 8 0\n-9 1 0\n"),
     "@DAG_DOT": ("steps.dot", 'digraph steps {\n  a1 -> b2;\n  a1 -> c3;\n  b2 -> d4;\n  c3 -> d4;\n  d4 -> e5;\n}\n'),
 }
 
@@ -143,7 +158,8 @@ def case_processes(ctx, lo, hi, seeds, verbose_every):
                 if tool == "cnfgen" and tail[0] in ("matching", "kcolor") and "-T" not in tail and i % 3 == 0:
                     argv_tail = argv_tail + ["save", "kthlist", "SAVEPATH"]
                 runs = [("0", cwds[0]), ("1", cwds[1]), ("random", cwds[2])]
-                if ctx.tier == "thorough" or sum(1 for t in argv_tail if t in ("addedges", "splitedges", "plantclique", "plantbiclique")) >= 2:
+                if ctx.tier == "thorough" or argv_tail != list(tail) or \
+                        sum(1 for t in argv_tail if t in ("addedges", "splitedges", "plantclique", "plantbiclique")) >= 2:
                     # string-keyed sets/dicts order differently for few hash seeds only: sweep some more
                     runs += [(str(h), cwds[h % 3]) for h in (2, 3, 4, 5, 6, 7, 12345)]
                 for k, (hs, cwd) in enumerate(runs):
@@ -382,7 +398,9 @@ def workload(tier, seed):
     q = tier == "quick"
     # fresh processes: a slice of the corpus per seed value (all of it in thorough)
     step = 4
-    for lo in range(0, n, step):
+    c = corpus()
+    heavy = lambda lo: not any("@" in t for it in c[lo:lo + step] for t in it[1])      # many-process groups first
+    for lo in sorted(range(0, n, step), key=heavy):
         if q and (lo // step + seed) % 4 != 0 and lo + step < n and not any("@" in t or t == "splitedges" for it in corpus()[lo:lo + step] for t in it[1]):
             continue              # quick: a quarter of the corpus in fresh processes (rotates with VERIF_SEED), all of it in-process
         if q:
